@@ -20,8 +20,9 @@ HARNESS = "c09"
 DRIVER = "c09"
 PROPS_MODULE = "OxyModel.Props.C09"
 AUDIT = "OxyModel/Audit/C09.lean"
-THEOREMS = ["C09.C09_lockset_sound", "C09.C09_no_race", "C09.C09_no_lost_update", "C09.C09_discipline",
-            "C09.C09_race_free_partial"]
+THEOREMS = ["C09.C09_lockset_sound", "C09.C09_no_race", "C09.C09_no_lost_update", "C09.C09_no_lost_update_general",
+            "C09.C09_discipline", "C09.C09_updates_atomic", "C09.C09_no_lost_update_facts",
+            "C09.C09_race_free_partial", "C09.C09_race_free_instances_partial"]
 RACE = True
 shrinkable = False
 BATCH_TIMEOUT = 120
@@ -31,7 +32,9 @@ RULE = ("obligations: lock facts regenerated from the source by /verif/harness/l
         "table with a write fact and at least one disciplined and (for mutated tables) one undisciplined variable; plus the "
         "-race stress of 10 middleware set-ups from 16 goroutines with exact totals")
 ASSUMPTIONS = [
-    "the translator: every access of a real execution is one of the emitted sites and the thread holds the locks listed there (Lean: Conforms facts es)",
+    "the translator: every access of a real execution is one of the emitted sites and the thread holds the locks listed there (Lean: Conforms / ConformsI facts es); a write at a site classified as one-statement read-modify-write is preceded by that statement's load with none of the site's locks released in between (Lean: ConformsU facts es)",
+    "no-lost-update is proved from the facts only for counter variables (all write sites one-statement read-modify-writes); variables that are also reset by plain stores (RollingCounter.values, ConnLimiter.connections) are covered by 'no split update site in the table' and the exact stress totals",
+    "split-update detection is syntactic and per call chain: a stored value data-dependent (through locals) on a load of the same variable in another critical section, or a plain store not preceded in its own critical section by a look at the variable that was looked at in an earlier section; a function called inside the statement of a read-modify-write is assumed not to release the caller's lock",
     "Go memory model for sync.Mutex/RWMutex = the step semantics of Model/Locks.lean",
     "abstraction: one lock class / one variable per (type, field); helper objects are named by the owner path that reaches them; distinct instances do not share helper objects",
     "objects allocated in the current call chain are thread-local until stored into a field, map or slice",
@@ -181,6 +184,7 @@ def pre_check(check):
         return
     STATE["json"] = d
     bad = [v for v in d["vars"] if not v["ok"]]
+    split = [v for v in d["vars"] if v.get("split")]
     STATE["bad_vars"] = bad
     check.extra.update({
         "lock_facts": len(d["facts"]), "shared_variables": len(d["vars"]), "lock_classes": d["lock_classes"],
@@ -213,10 +217,15 @@ def pre_check(check):
     for v in d["vars"]:
         if not v["ok"]:
             check.obligations.append(("C09.C09_discipline[%s]" % v["name"], False, "no fixed lock; best candidate %s fails at: %s" % (v["lock"] or "-", "; ".join(v["bad"][:6]))))
-    check.obligations.append(("C09.C09_discipline on regenerated facts (%d facts, %d variables)" % (len(d["facts"]), len(d["vars"])), lean_ok and not bad, lean_err))
-    if lean_ok != (not bad):
-        check.obligations.append(("C09.translator-verdict-vs-lean", False, "Go verdict undisciplined=%d but Lean build ok=%s: %s" % (len(bad), lean_ok, lean_err)))
-    discipline_ok = lean_ok and not bad
+    for v in split:
+        check.obligations.append(("C09.C09_updates_atomic[%s]" % v["name"], False, "; ".join(v["split"][:4])))
+    check.obligations.append(("C09.C09_discipline + C09_updates_atomic on regenerated facts (%d facts, %d variables, %d counter variables)" % (
+        len(d["facts"]), len(d["vars"]), len([v for v in d["vars"] if v.get("counter")])), lean_ok and not bad and not split, lean_err))
+    if lean_ok != (not bad and not split):
+        check.obligations.append(("C09.translator-verdict-vs-lean", False, "Go verdict undisciplined=%d split=%d but Lean build ok=%s: %s" % (len(bad), len(split), lean_ok, lean_err)))
+    discipline_ok = lean_ok and not bad and not split
+    check.extra["counter_variables"] = [v["name"] for v in d["vars"] if v.get("counter")]
+    check.extra["write_sites_by_kind"] = {k: len([f for f in d["facts"] if f["kind"] == n]) for k, n in (("read-modify-write", 1), ("plain-store", 2), ("split-update", 3))}
 
     # --- -race stress: look for a concrete failing schedule
     if not check.build_harness(race=True):
@@ -251,7 +260,11 @@ def pre_check(check):
             hdr_disc += "# undisciplined variable %s (best candidate lock %s):\n" % (v["name"], v["lock"] or "-")
             for b in v["bad"][:12]:
                 hdr_disc += "#     %s\n" % b
-        if lean_err and not bad:
+        for v in split:
+            hdr_disc += "# theorem C09.C09_updates_atomic: variable %s has an update that is not one critical section:\n" % v["name"]
+            for b in v["split"][:8]:
+                hdr_disc += "#     %s\n" % b
+        if lean_err and not bad and not split:
             hdr_disc += "# lean: %s\n" % lean_err.replace("\n", "\n# ")
     for n, (st, line, rep) in sorted(found.items()):
         what = {"race": "data race reported by the Go race detector", "wrong": "wrong total (lost update / lost request)", "hang": "stress run did not finish"}[st]
@@ -266,11 +279,12 @@ def pre_check(check):
     if not found:
         check.obligations.append(("C09.stress: %d sub-tests race-free with exact totals" % len(names), True, "%d operations from 16 goroutines under -race" % total_iters))
     if not discipline_ok and not found:
-        site = bad[0]["bad"][0] if bad and bad[0]["bad"] else "?"
+        site = bad[0]["bad"][0] if bad and bad[0]["bad"] else (split[0]["split"][0] if split else "?")
         txt = hdr_disc + "# the -race stress (%d rounds, %d operations) found no failing schedule (no-failing-input-found)\n" % (rounds, total_iters)
         txt += "# first access that lost its lock: %s\n" % site
         p = check.write_replay("discipline", txt)
-        check.violations.append((p, "no-failing-input-found theorem=C09.C09_discipline site=%s" % site.split(" in ")[0].replace(" ", ":")))
+        thm = "C09.C09_discipline" if bad or not split else "C09.C09_updates_atomic"
+        check.violations.append((p, "no-failing-input-found theorem=%s site=%s" % (thm, site.split(" in ")[0].replace(" ", ":"))))
 
 
 # ---------------------------------------------------------------------------------------------- scenarios
@@ -278,7 +292,7 @@ def _table_lines(facts, var_id, lock_id):
     out = []
     for f in facts:
         ls = ",".join("%d:%s" % (lock_id[l[0]], l[1]) for l in (f["locks"] or [])) or "-"
-        out.append("fact %d %s %s %s" % (var_id[f["var"]], "w" if f["write"] else "r", ls, f["site"].replace(" ", "_")))
+        out.append("fact %d %s %s %s" % (var_id[f["var"]], "ruwx"[f.get("kind", 2 if f["write"] else 0)], ls, f["site"].replace(" ", "_")))
     return out
 
 
@@ -290,7 +304,8 @@ def gen(rng, tier):
         lock_id = {n: i for i, n in enumerate(d["lock_classes"])}
         base = _table_lines(d["facts"], var_id, lock_id)
         verdicts = ["verdict %d" % v["id"] for v in d["vars"]]
-        yield ["# real", "cfg facts"] + base + verdicts + ["verdict %d" % len(d["vars"]), "all", "count"]
+        counters = ["counter %d" % v["id"] for v in d["vars"]]
+        yield ["# real", "cfg facts"] + base + verdicts + ["verdict %d" % len(d["vars"]), "all", "updates"] + counters + ["count"]
         for _ in range(n_mut):
             lines = list(base)
             for _ in range(rng.randint(1, 3)):
@@ -307,14 +322,14 @@ def gen(rng, tier):
                     a, m = ls[j].split(":")
                     ls[j] = a + ":" + ("R" if m == "W" else "W")
                     f[3] = ",".join(ls)
-                elif r < 0.85:                   # read <-> write
-                    f[2] = "w" if f[2] == "r" else "r"
+                elif r < 0.85:                   # another kind of access
+                    f[2] = rng.choice([k for k in "ruwx" if k != f[2]])
                 else:                            # the site disappears
                     lines.pop(i)
                     continue
                 lines[i] = " ".join(f)
             rng_v = rng.sample(range(len(d["vars"])), min(12, len(d["vars"])))
-            yield ["# mutated", "cfg facts"] + lines + ["verdict %d" % v for v in rng_v] + ["all", "count"]
+            yield ["# mutated", "cfg facts"] + lines + ["verdict %d" % v for v in rng_v] + ["counter %d" % v for v in rng_v[:4]] + ["all", "updates", "count"]
     for _ in range(n_mut):
         nv, nl = rng.randint(1, 5), rng.randint(1, 4)
         lines = ["# random", "cfg facts"]
@@ -324,12 +339,12 @@ def gen(rng, tier):
                 if rng.random() < 0.6:
                     ls.append("%d:%s" % (l, rng.choice("RWW")))
             rng.shuffle(ls)
-            lines.append("fact %d %s %s s%d" % (rng.randrange(nv), rng.choice("rw"), ",".join(ls) or "-", rng.randrange(99)))
+            lines.append("fact %d %s %s s%d" % (rng.randrange(nv), rng.choice("rrwuux"), ",".join(ls) or "-", rng.randrange(99)))
             if rng.random() < 0.2:
                 lines.append("verdict %d" % rng.randrange(nv + 1))
-        lines += ["verdict %d" % v for v in range(nv + 1)] + ["all", "count"]
+        lines += ["verdict %d" % v for v in range(nv + 1)] + ["counter %d" % v for v in range(nv + 1)] + ["all", "updates", "count"]
         if rng.random() < 0.05:
-            lines.append(rng.choice(["fact 1 x - s", "verdict", "fact -1 r - s", "frob", "fact 1 r 2:Q s"]))
+            lines.append(rng.choice(["fact 1 q - s", "verdict", "fact -1 r - s", "frob", "fact 1 r 2:Q s", "counter", "updates now"]))
         yield lines
 
 
@@ -362,7 +377,7 @@ def monitor(ops, outs):
                 for p in f[3].split(","):
                     a, m = p.split(":")
                     locks[int(a)] = locks.get(int(a), False) or m == "W"
-            facts.append((int(f[1]), f[2] == "w", locks))
+            facts.append((int(f[1]), f[2] != "r", locks, f[2]))
         elif f[0] == "verdict" and len(f) == 2 and o != "bad-op":
             want = _ref_verdict(facts, int(f[1]))
             if o != want:
@@ -372,6 +387,18 @@ def monitor(ops, outs):
                 tv = ("disciplined %d" % d["lock_classes"].index(v["lock"])) if v["ok"] else "undisciplined"
                 if o != tv:
                     msgs.append("translator-verdict-mismatch var %s (%s): table says %r, translator said %r" % (f[1], v["name"], o, tv))
+        elif f[0] == "updates" and o != "bad-op":
+            vs = sorted(set(x[0] for x in facts if x[3] == "x"))
+            want = "updates-atomic" if not vs else "split " + " ".join(map(str, vs))
+            if o != want:
+                msgs.append("updates-mismatch: harness says %r, recomputed %r" % (o, want))
+            if real and d and (o == "updates-atomic") != (not any(v.get("split") for v in d["vars"])):
+                msgs.append("translator-updates-mismatch: table says %r, translator lists split updates for %s" % (o, [v["name"] for v in d["vars"] if v.get("split")]))
+        elif f[0] == "counter" and len(f) == 2 and o != "bad-op":
+            fs = [x for x in facts if x[0] == int(f[1])]
+            want = "novar" if not fs else ("counter" if all((not x[1]) or x[3] == "u" for x in fs) else "not-counter")
+            if o != want:
+                msgs.append("counter-mismatch var %s: harness says %r, recomputed %r" % (f[1], o, want))
         elif f[0] == "all" and o != "bad-op":
             vs = sorted(set(x[0] for x in facts))
             badv = [v for v in vs if _ref_verdict(facts, v) == "undisciplined"]
@@ -382,7 +409,7 @@ def monitor(ops, outs):
 
 
 def nontrivial(ops, outs):
-    has_w = any(l.startswith("fact ") and l.split()[2] == "w" for l in ops)
+    has_w = any(l.startswith("fact ") and l.split()[2] in "uwx" for l in ops)
     disc = any(o.startswith("disciplined") for o in outs)
     und = any(o == "undisciplined" for o in outs)
     if ops and ops[0].startswith("# real"):
@@ -398,7 +425,7 @@ def describe(ops, outs, hist):
         if f and f[0] == "verdict":
             hist["verdict:" + o.split()[0]] += 1
         elif f and f[0] == "fact":
-            hist["fact:" + ("write" if len(f) > 2 and f[2] == "w" else "read")] += 1
+            hist["fact:" + {"r": "read", "u": "rmw", "w": "store", "x": "split"}.get(f[2] if len(f) > 2 else "", "other")] += 1
         if o == "bad-op":
             hist["bad-op"] += 1
 
